@@ -1,4 +1,5 @@
 import VaxisModel.Lemmas.Startup
+import VaxisModel.Lemmas.StartupLive
 import VaxisModel.Gen.Startup
 
 /-!
@@ -143,6 +144,39 @@ theorem caps_exact (p : Params) (o : Opts) (ls : List VaxisModel.Model.Startup.L
   cases hkit : startsWith (ascii "kitty") (termIDOf (A ++ [d])) <;>
   cases htm : (termIDOf (A ++ [d]) == ascii "tmux 3.4") <;>
   simp
+
+/-- **The start-up can always complete** — the hypotheses of `caps_exact` are satisfiable for
+*every* reply stream: for every queue capacity ≥ 1, every base64 decoder, the send kinds of the
+current source, every list `A` of sequences the parser can deliver without a DA1 reply and every
+DA1 reply `d`, there is a run of the start-up system (here: the probe times out, then the loop of
+`New` receives whenever the goroutine would otherwise block or drop) that handles exactly
+`A ++ [d]` and ends `ready`, the loop ended by the DA1 notification, nothing dropped. -/
+theorem startup_completes (qcap : Nat) (hq : 0 < qcap) (b64 : List Nat → Option (List Nat)) (o : Opts)
+    (A : List Seq) (d : Seq) (hw : ∀ s ∈ A ++ [d], VaxisModel.Lemmas.Input.WfSeq s)
+    (hA : ∀ s ∈ A, isDA1 s = false) (hd : isDA1 d = true) :
+    ∃ ls st, inputsOf ls = A ++ [d] ∧
+      VaxisModel.Model.Startup.run { qcap := qcap, kinds := Kinds.ofGen, b64 := b64 } o (St.init o) ls = some st ∧
+      st.phase = .ready ∧ st.timedOut = false ∧ st.sys.dropped = 0 ∧ st.probeGot = none := by
+  have hk : VaxisModel.Lemmas.InputLoop.Kinds.safe Kinds.ofGen := by
+    have e : Kinds.ofGen = ⟨.nonblocking, .nonblocking, .nonblocking, .nonblocking, .nonblocking, .timeout⟩ := by decide
+    rw [e]; simp [VaxisModel.Lemmas.InputLoop.Kinds.safe]
+  exact VaxisModel.Lemmas.StartupLive.startup_completes { qcap := qcap, kinds := Kinds.ofGen, b64 := b64 } o hq hk A d hw hA hd
+
+/-- **caps_exact is attained**: for every such stream there is a complete start-up whose
+capability record is exactly `specCaps` of the stream (probe unanswered) — each flag set iff a
+reply advertising it is in `A ++ [d]`. -/
+theorem caps_exact_attained (qcap : Nat) (hq : 0 < qcap) (b64 : List Nat → Option (List Nat)) (o : Opts)
+    (henv : o.envUnset = true) (A : List Seq) (d : Seq) (hw : ∀ s ∈ A ++ [d], VaxisModel.Lemmas.Input.WfSeq s)
+    (hA : ∀ s ∈ A, isDA1 s = false) (hd : isDA1 d = true) :
+    ∃ ls st, inputsOf ls = A ++ [d] ∧
+      VaxisModel.Model.Startup.run { qcap := qcap, kinds := Kinds.ofGen, b64 := b64 } o (St.init o) ls = some st ∧
+      st.phase = .ready ∧ st.sys.vs.caps = specCaps o (A ++ [d]) none := by
+  obtain ⟨ls, st, hi, hr, hph, hto, hdr, hpg⟩ := startup_completes qcap hq b64 o A d hw hA hd
+  obtain ⟨A', d', B, hs, hd', hA', hc⟩ := caps_exact _ o ls st hr hph hto hdr henv (by intro x hx; rw [hpg] at hx; cases hx)
+  rw [hi] at hs
+  obtain ⟨e1, e2, _⟩ := VaxisModel.Lemmas.StartupLive.split_unique A A' B d d' hs hA hd hA' hd'
+  refine ⟨ls, st, hi, hr, hph, ?_⟩
+  rw [hc, e1, e2, hpg]; rfl
 
 /-- **caps_sound** (no side conditions): at every state a run can reach before `applyQuirks` —
 whether the loop is still running, ended by DA1 or by its time-out, whatever was dropped — every
